@@ -229,8 +229,21 @@ def gen_spec(rng, uid, base, force=None):
             if f["converter"] is None and rng.random() < 0.7:
                 f["converter"] = rng.choice(CONV_KINDS[2:])
             f["validator"] = f["converter"] is not None or f["validator"]
+    elif hooks in ("validate_only", "convert_novalid"):
+        # the reset of a class-level setters.validate / setters.convert looks at the right kind of field
+        s["on_setattr"] = "validate" if hooks == "validate_only" else "convert"
+        if not s["fields"]:
+            s["fields"] = [gen_field(rng, rng.choice(NAMES), uid, 0.0)]
+        for f in s["fields"]:
+            f["on_setattr"] = None
+            f["validator"] = hooks == "validate_only"
+            f["converter"] = None if hooks == "validate_only" else rng.choice(CONV_KINDS[2:])
     elif hooks == "explicit":
         s["on_setattr"] = rng.choice([t for t in OS_TAGS + CLS_ONLY if t != "NO_OP"])
+    elif hooks == "noop_cls":
+        s["on_setattr"] = "NO_OP"
+        for f in s["fields"]:
+            f["on_setattr"] = None
     return s
 
 
@@ -258,6 +271,11 @@ TEMPLATES = [
     # the builder's reset of class-level validate / convert
     [{"hooks": "convert_only", "frozen": False, "user_setattr": False}],
     [{"hooks": "none", "frozen": False}, {"hooks": "convert_only", "frozen": False, "user_setattr": False}],
+    [{"hooks": "validate_only", "frozen": False, "user_setattr": False, "api": "attrs"}],
+    [{"hooks": "convert_novalid", "frozen": False, "user_setattr": False, "api": "attrs"}],
+    # define(on_setattr=NO_OP) below a frozen class is fine
+    [{"frozen": True, "hooks": "none", "user_setattr": False},
+     {"api": "define", "frozen": False, "hooks": "noop_cls", "user_setattr": False}],
 ]
 
 
